@@ -308,7 +308,12 @@ ALLOWED = {
 
 def _r2(ctx):
     pkg = package(ctx.tree)
-    fn = pkg.method("Species", "__eq__")
+
+    def method(name):
+        """the method as the rules read it: private helpers it was split into put back, class-level constants as their literals"""
+        pkg.method("Species", name)
+        return pkg.constants_folded("Species", pkg.expanded("Species", name))
+    fn = method("__eq__")
     ctx.saw(SPECIES, "Species.__eq__")
     disj, probs = eq_disjuncts(fn)
     for p in probs:
@@ -340,7 +345,7 @@ def _r2(ctx):
                     expected="name, or (is_surface, basename, charge), or (is_grain, grain_group, charge), or both electrons",
                     found=f"eq on {sorted(eqs)}, both {sorted(both)}")
     # R3 electrons: one hash value
-    hf = pkg.method("Species", "__hash__")
+    hf = method("__hash__")
     ctx.saw(SPECIES, "Species.__hash__")
     paths = hash_paths(hf, resolve=lambda name: pkg.method("Species", name))
     el = [p for p in paths if p[0] == "self.is_electron"]
@@ -349,7 +354,7 @@ def _r2(ctx):
               found="; ".join(f"{c}: {e}" for c, _, e in paths)[:160])
     has_e = any(frozenset(d) == frozenset({("both", "is_electron")}) for d in disj)
     ctx.check(has_e, "R3", "Species.__eq__:electron", (SPECIES, fn.lineno), "all electron spellings compare equal")
-    ie = pkg.method("Species", "is_electron")
+    ie = method("is_electron")
     ctx.saw(SPECIES, "Species.is_electron")
     # constant folding of the predicate for the four spellings (no execution: a whitelisted expression evaluator over the AST)
     res = {nm: _fold_name_predicate(ie, nm) for nm in ("e", "E", "e-", "E-")}
